@@ -13,6 +13,10 @@ from fractions import Fraction
 
 ID = "C12"
 LEVEL = "proof"
+# translator tie: concrete instantiations of duration_cast / floor / ceil / round / abs and of duration + - % / are
+# regenerated from /repo on every run (translate/kernels_duration.json + translate/tu_duration.cpp) and re-proved equal to
+# the hand models for all arguments (coq/C12/GenEquiv.v, Properties_gen.v)
+TRANSLATE = [("translate/kernels_duration.json", "coq/Gen/Gen_duration.v")]
 # --nofork: the code under test is pure integer arithmetic on in-domain inputs (no crash isolation needed;
 # a crash fails the run), and one write per case would dominate the run time
 # The harness instantiates ~215 (period pair, rep pair) combinations: compiled as 4 parts in parallel by pcxx.py
@@ -625,6 +629,28 @@ def gen_urep(tier, rng):
     return out
 
 
+# ---- mirror of coq/C12/SpecChain.v: the ten mutating member operators (order of ModelChain.all_mops) ----
+NMOP, NTMOP = 10, 6     # ++d d++ --d d-- += -= *= /= %=(rep) %=(duration); time_point has the first six
+
+
+def mop_effect(k, c, x):
+    return (c + 1, c + 1, c - 1, c - 1, c + x, c - x, c * x,
+            tquot(c, x) if x != 0 else None, trem(c, x) if x != 0 else None, trem(c, x) if x != 0 else None)[k]
+
+
+def mop_step_ok(w, k, c, x):
+    e = mop_effect(k, c, x)
+    if e is None or not (fits(w, c) and fits(w, x) and fits(w, e)):
+        return False
+    return k < 7 or (x != 0 and fits(w, tquot(c, x)))
+
+
+def chain_ok(w, k1, k2, c, a, b):
+    if not mop_step_ok(w, k1, c, a):
+        return False
+    return mop_step_ok(w, k2, mop_effect(k1, c, a) if k1 not in (1, 3) else c, b)
+
+
 SMALL = [0, 1, -1, 2, -2, 3, -3, 7, -7, 59, 60, -60, 61, 999, 1000, -1000, 1001, -1999, 2000, 30000, -30000, 86399]
 
 
@@ -829,6 +855,26 @@ def gen(tier, rng):
                             if x != 0 and all(fits(w, v) for v in (c + x, c - x, c * x)) and not (c == -lim - 1 and x == -1):
                                 out.append(f"{h('compound')} {c} {x}")
                                 out.append(f"{h('tp_compound')} {c} {x}")
+                # ---- one type: chained member operators (obj @k1 a) @k2 b, all k2 per line; result types
+                if j == i:
+                    w = P.w1
+                    lim = (1 << (w - 1)) - 1
+                    out.append(h("reftypes"))
+                    cs2 = [0, 7, -7, 2000, -86399, lim // 3, -(lim // 5), rng.randint(-10**6, 10**6)]
+                    as2 = [1, -3, 250, rng.randint(-999, 999) or 5]
+                    bs2 = [-1, 2, 1000, rng.randint(-999, 999) or 3]
+                    if not quick:
+                        cs2 += [1, -1, lim - 2, -lim + 1, 1 << 20] + [rng.randint(-lim, lim) for _ in range(7)]
+                        as2 += [-1, 60, 46340, rng.randint(-10**5, 10**5) or 1]
+                        bs2 += [1, -2, 46341, rng.randint(-10**5, 10**5) or 1]
+                    for c in cs2:
+                        for a in as2:
+                            for b in bs2:
+                                for k1 in range(NMOP):
+                                    if all(chain_ok(w, k1, k2, c, a, b) for k2 in range(NMOP)):
+                                        out.append(f"{h('chain')} {k1} {c} {a} {b}")
+                                    if k1 < NTMOP and all(chain_ok(w, k1, k2, c, a, b) for k2 in range(NTMOP)):
+                                        out.append(f"{h('tp_chain')} {k1} {c} {a} {b}")
     return out
 
 
